@@ -26,7 +26,9 @@ RULE = (
     "load pops its whole queue in non-decreasing (time, unplug<plug-in<recompute) order. In "
     "addition every scenario is dumped and loaded before its first period (the loaded simulator, "
     "given a fresh scheduler, must reproduce the uninterrupted run) and after completion (same "
-    "outcome, same dump). "
+    "outcome, same dump). In half of the scenarios (two thirds in the thorough tier) ONE run is in addition interrupted two to four times, "
+    "in-process resumes and JSON checkpoints mixed, every checkpoint passing the loaded-state clauses, the final "
+    "outcome compared with the uninterrupted run. "
     "Non-trivial = at the crash point an EV is connected and an event is pending."
 )
 ASSUMPTIONS = [
@@ -123,6 +125,38 @@ def pending_keys(sim):
     return sorted((ts, e.event_type, e.ev.session_id if hasattr(e, "ev") else None) for ts, e in sim.event_queue.queue)
 
 
+def check_loaded(what, sim, s2, s3, js):
+    """sim: the interrupted original; s2, s3: two simulators loaded from its dump js."""
+    # complete state: dumping the loaded object gives the same object graph again
+    with warnings.catch_warnings():
+        warnings.simplefilter("ignore")
+        js2 = s3.to_json()
+    diff = first_difference(canonical_dump(js), canonical_dump(js2))
+    require(diff is None, "loaded_state_incomplete", lambda: "%s: dump of the loaded simulator differs from the dump it was loaded from at %s" % (what, diff))
+    require(s2.iteration == sim.iteration and s2.peak == sim.peak and s2.period == sim.period and s2.start == sim.start, "loaded_scalars", lambda: "%s: iteration/peak/period/start %r vs %r" % (what, (s2.iteration, s2.peak, s2.period, s2.start), (sim.iteration, sim.peak, sim.period, sim.start)))
+    require(np.array_equal(s2.pilot_signals, sim.pilot_signals) and np.array_equal(s2.charging_rates, sim.charging_rates), "loaded_matrices", "%s: matrices differ after load" % what)
+    require(pending_keys(s2) == pending_keys(sim), "loaded_pending_events", lambda: "%s: pending events %r, original %r" % (what, pending_keys(s2), pending_keys(sim)))
+    require([sc.event_key(e) for e in s2.event_history] == [sc.event_key(e) for e in sim.event_history], "loaded_event_history", "%s: event history (already processed events, a list) differs after load" % what)
+    require(s2.network.station_ids == sim.network.station_ids, "loaded_station_order", "%s: station order differs after load" % what)
+    # shared objects are shared again
+    for sid in s2.network.station_ids:
+        ev = s2.network.get_ev(sid)
+        orig = sim.network.get_ev(sid)
+        require((ev is None) == (orig is None), "loaded_occupancy", lambda: "%s: station %s occupancy differs after load" % (what, sid))
+        if ev is None:
+            continue
+        require(ev.session_id == orig.session_id and ev.energy_delivered == orig.energy_delivered, "loaded_ev_state", lambda: "%s: EV at %s differs after load" % (what, sid))
+        require(s2.ev_history.get(ev.session_id) is ev, "loaded_ev_shared_with_history", lambda: "%s: EV %s at its station and in ev_history are different objects after load" % (what, ev.session_id))
+        unp = [e for _, e in s2.event_queue.queue if e.event_type == "Unplug" and e.ev.session_id == ev.session_id]
+        require(len(unp) == 1 and unp[0].ev is ev, "loaded_ev_shared_with_pending_unplug", lambda: "%s: pending unplug of %s does not reference the connected EV object" % (what, ev.session_id))
+    # the restored heap still pops in order
+    keys = []
+    while not s3.event_queue.empty():
+        e = s3.event_queue.get_event()
+        keys.append((e.timestamp, RANK[e.event_type]))
+    require(keys == sorted(keys), "loaded_queue_pops_in_order", lambda: "%s: restored queue pops %r" % (what, keys))
+
+
 def prop(spec, rec):
     m = sc.Model(spec)
     href = sc.build_sim(spec)
@@ -183,34 +217,7 @@ def prop(spec, rec):
                 s2, js = sc.json_roundtrip(sim, Simulator, spec.get("json_via", "string"))
                 s3 = Simulator.from_json(js)
             labels.add("json_via_" + spec.get("json_via", "string"))
-            # complete state: dumping the loaded object gives the same object graph again
-            with warnings.catch_warnings():
-                warnings.simplefilter("ignore")
-                js2 = s3.to_json()
-            diff = first_difference(canonical_dump(js), canonical_dump(js2))
-            require(diff is None, "loaded_state_incomplete", lambda: "%s: dump of the loaded simulator differs from the dump it was loaded from at %s" % (what, diff))
-            require(s2.iteration == sim.iteration and s2.peak == sim.peak and s2.period == sim.period and s2.start == sim.start, "loaded_scalars", lambda: "%s: iteration/peak/period/start %r vs %r" % (what, (s2.iteration, s2.peak, s2.period, s2.start), (sim.iteration, sim.peak, sim.period, sim.start)))
-            require(np.array_equal(s2.pilot_signals, sim.pilot_signals) and np.array_equal(s2.charging_rates, sim.charging_rates), "loaded_matrices", "%s: matrices differ after load" % what)
-            require(pending_keys(s2) == pending_keys(sim), "loaded_pending_events", lambda: "%s: pending events %r, original %r" % (what, pending_keys(s2), pending_keys(sim)))
-            require([sc.event_key(e) for e in s2.event_history] == [sc.event_key(e) for e in sim.event_history], "loaded_event_history", "%s: event history (already processed events, a list) differs after load" % what)
-            require(s2.network.station_ids == sim.network.station_ids, "loaded_station_order", "%s: station order differs after load" % what)
-            # shared objects are shared again
-            for sid in s2.network.station_ids:
-                ev = s2.network.get_ev(sid)
-                orig = sim.network.get_ev(sid)
-                require((ev is None) == (orig is None), "loaded_occupancy", lambda: "%s: station %s occupancy differs after load" % (what, sid))
-                if ev is None:
-                    continue
-                require(ev.session_id == orig.session_id and ev.energy_delivered == orig.energy_delivered, "loaded_ev_state", lambda: "%s: EV at %s differs after load" % (what, sid))
-                require(s2.ev_history.get(ev.session_id) is ev, "loaded_ev_shared_with_history", lambda: "%s: EV %s at its station and in ev_history are different objects after load" % (what, ev.session_id))
-                unp = [e for _, e in s2.event_queue.queue if e.event_type == "Unplug" and e.ev.session_id == ev.session_id]
-                require(len(unp) == 1 and unp[0].ev is ev, "loaded_ev_shared_with_pending_unplug", lambda: "%s: pending unplug of %s does not reference the connected EV object" % (what, ev.session_id))
-            # the restored heap still pops in order
-            keys = []
-            while not s3.event_queue.empty():
-                e = s3.event_queue.get_event()
-                keys.append((e.timestamp, RANK[e.event_type]))
-            require(keys == sorted(keys), "loaded_queue_pops_in_order", lambda: "%s: restored queue pops %r" % (what, keys))
+            check_loaded(what, sim, s2, s3, js)
             if isinstance(h.scheduler, sc.Scripted):
                 new_sched = sc.make_scheduler(spec)
             else:
@@ -225,6 +232,42 @@ def prop(spec, rec):
             sc.run_sim(h)
             got = outcome(sim)
         compare(ref, got, what)
+    # one run interrupted several times, checkpoints and in-process resumes mixed
+    chain = spec.get("chain") or []
+    if chain:
+        ts = [t for t, _ in chain]
+        h = sc.build_sim(spec, crash_at=set(ts))
+        for i, (t, mode) in enumerate(chain):
+            what = "interruption %d of %d, at %d (%s)" % (i + 1, len(chain), t, mode)
+            try:
+                sc.run_sim(h)
+                crashed = False
+            except sc.Crash:
+                crashed = True
+            require(crashed, "harness_crash_point_reached", lambda: "%s: scheduler was not invoked in that period" % what)
+            if mode == "json":
+                with warnings.catch_warnings():
+                    warnings.simplefilter("ignore")
+                    s2, js = sc.json_roundtrip(h.sim, Simulator, spec.get("json_via", "string"))
+                    s3 = Simulator.from_json(js)
+                check_loaded(what, h.sim, s2, s3, js)
+                if isinstance(h.scheduler, sc.Scripted):
+                    new_sched = sc.make_scheduler(spec, crash_at=set(ts[i + 1 :]))
+                else:
+                    new_sched = h.scheduler
+                s2.update_scheduler(new_sched)
+                h2 = sc.Handle(spec, s2, s2.network, dict(s2.ev_history), new_sched)
+                h2.feed = h.feed
+                h = h2
+        sc.run_sim(h)
+        compare(ref, outcome(h.sim), "run interrupted %d times (%s)" % (len(chain), ", ".join("%d:%s" % (t, md) for t, md in chain)))
+        labels.add("interrupted_%s" % ("twice" if len(chain) == 2 else "three_times_or_more" if len(chain) > 2 else "once_chain"))
+        if len(chain) >= 2:
+            labels.add("interrupted_repeatedly")
+            if len({md for _, md in chain}) == 2:
+                labels.add("checkpoint_and_in_process_resume_in_one_run")
+            if sum(1 for _, md in chain if md == "json") >= 2:
+                labels.add("two_checkpoints_in_one_run")
     if spec.get("store_history"):
         labels.add("schedule_history_on")
     if spec["scheduler"].get("estimator"):
@@ -248,6 +291,14 @@ def cases(draw, all_points=False):
         pts = draw(st.lists(st.tuples(st.sampled_from(menu), st.sampled_from(["resume", "json", "json"])), min_size=1, max_size=3, unique=True))
         spec["crash_points"] = [list(p) for p in pts]
     spec["json_via"] = draw(st.sampled_from(["string", "path", "buffer"]))
+    inv = sc.Model(spec).invocations
+    if len(inv) >= 2 and draw(st.integers(0, 2 if all_points else 1)) > 0:
+        # the same run interrupted two to four times
+        k = draw(st.integers(2, min(4, len(inv))))
+        idx = sorted(draw(st.lists(st.integers(0, len(inv) - 1), min_size=k, max_size=k, unique=True)))
+        if draw(st.booleans()) and inv[-1] not in [inv[i] for i in idx]:
+            idx[-1] = len(inv) - 1
+        spec["chain"] = [[inv[i], draw(st.sampled_from(["resume", "json", "json"]))] for i in idx]
     if spec["scheduler"]["kind"] in ("greedy", "rr") and draw(st.booleans()):
         # a stateful upper-bound estimator rides along (it holds an interface of its own)
         spec["scheduler"]["estimator"] = {"up": draw(st.sampled_from([1, 0.5, 2])), "down": draw(st.sampled_from([1, 0.5, 3])), "inc": draw(st.sampled_from([1, 0.5, 2]))}
@@ -262,7 +313,7 @@ def subchecks(tier):
             prop,
             quick=200,
             thorough=6000,
-            floors={"json": 0.245, "crash_at_last_period": 0.05, "crash_with_ev_and_pending_event": 0.272, "schedule_history_on": 0.106, "json_via_path": 0.056, "noise": 0.2},
+            floors={"json": 0.245, "crash_at_last_period": 0.05, "crash_with_ev_and_pending_event": 0.272, "schedule_history_on": 0.106, "json_via_path": 0.045, "noise": 0.2, "interrupted_repeatedly": 0.12, "two_checkpoints_in_one_run": 0.04},
         )
     ]
 
